@@ -32,9 +32,83 @@ _mc_get = Contract(
 
 FAMILIES = [
     Family('ModuleCache', fields={'_name_cache': DictT(_NAMES, ANY)}),
+    Family('FileIO9', attrs={'path': ANY, '_zip_path': ANY}),
 ]
 
+
+def register(reg):
+    from pyvc.values import MNS, MFn
+    osn = reg.names['os']
+    osn.members['path'].members['getmtime'] = MFn('spec', 'os.path.getmtime', spec=FnSpec(
+        'os.path.getmtime', params=[('p', ANY)], ret=ANY, pure=True, assumed=True,
+        raises=[('FileNotFoundError', 'not file_exists(p)')], ensures=['file_exists(p)']))
+    reg.names['mtime_of'] = FnSpec('os.path.getmtime', params=[('p', ANY)], ret=ANY, pure=True, assumed=True)
+    reg.names['file_exists'] = FnSpec('file_exists', params=[('p', ANY)], ret=BOOL, pure=True, assumed=True,
+                                      note='ghost: the path exists at the time of the call')
+
 CONTRACTS = [_mc_add, _mc_get, _c12._get_module_info]
+
+
+def _replay_mtime(inp):
+    """a real file whose modification time has a fractional part (what parso's cache compares)"""
+    import tempfile
+    import zipfile
+    from pyvc.replay import run_real
+    import jedi.file_io as fio
+    d = tempfile.mkdtemp(prefix='mtime_', dir='/var/tmp')
+    try:
+        target = os.path.join(d, 'm.py')
+        with open(target, 'w') as f:
+            f.write('x = 1\n')
+        os.utime(target, (1000000000.75, 1000000000.75))
+        cls = getattr(fio, inp['cls'])
+        if inp['cls'] == 'ZipFileIO':
+            obj = cls(os.path.join(target, 'inner.py'), b'', target)
+        elif inp['cls'] == 'KnownContentFileIO':
+            obj = cls(target, 'x = 1\n')
+        else:
+            obj = cls(target)
+        out = run_real(lambda: obj.get_last_modified())
+        exp = os.path.getmtime(target)
+        import types
+        return {'expected_mtime': exp, 'self': types.SimpleNamespace(path=target, _zip_path=target),
+                'file_exists': lambda p: True, 'mtime_of': lambda p: exp}, out
+    finally:
+        import shutil
+        shutil.rmtree(d, ignore_errors=True)
+
+
+def dynamic_contracts(repo):
+    """one contract per get_last_modified definition reachable from the classes of jedi/file_io.py (today: only
+    ZipFileIO overrides parso's); module-level helpers of the file are inlined"""
+    out = []
+    try:
+        t = ast.parse(open(os.path.join(repo, 'jedi/file_io.py'), encoding='utf-8').read())
+    except (OSError, SyntaxError):
+        return out
+    helpers = [s.name for s in t.body if isinstance(s, ast.FunctionDef)]
+    for cls in [s for s in t.body if isinstance(s, ast.ClassDef)]:
+        for fn in [s for s in cls.body if isinstance(s, ast.FunctionDef) and s.name == 'get_last_modified']:
+            src = ast.unparse(fn)
+            attr = '_zip_path' if '_zip_path' in src and cls.name == 'ZipFileIO' else 'path'
+            # concrete classes that inherit this definition (for the replay)
+            concrete = cls.name
+            if cls.name not in ('ZipFileIO', 'FileIO', 'KnownContentFileIO'):
+                concrete = 'FileIO'
+            out.append(Contract(
+                id='C09.%s.get_last_modified' % cls.name, prop='C09',
+                clause='the timestamp handed to parso\'s cache is exactly the file system\'s modification time of '
+                       'the file (None iff the file does not exist): no rounding, no remembered value',
+                file='jedi/file_io.py', qualname='%s.get_last_modified' % cls.name,
+                params={'self': Obj('FileIO9')}, families=['FileIO9'], ret=Opt(ANY), inline=helpers,
+                ensures=['implies(file_exists(self.%s), result is not None and result == mtime_of(self.%s))' % (attr, attr),
+                         'implies(not file_exists(self.%s), result is None)' % attr],
+                witness={}, replay=_replay_mtime, witness_library=[{'cls': concrete}],
+                concrete_ensures=['result == expected_mtime'],
+                notes='os.path.getmtime assumed: raises FileNotFoundError iff the file does not exist, else a pure '
+                      'function of the path at the time of the call',
+            ))
+    return out
 
 
 def structural_freshness(repo):
@@ -101,6 +175,14 @@ def structural_freshness(repo):
                 'detail': 'process-global dict keyed by (module name, name); no invalidation found'})
     return out
 
+
+def _standin(repo, seed, tier):
+    from pyvc.standin import run_standin
+    return run_standin('C09', tier, seed, repo)
+
+
+_standin.tiers = ('quick', 'thorough')
+BOUNDED = [_standin]
 
 from contracts.common import structural_signature_key as _sigkey
 STRUCTURAL = [structural_freshness, _sigkey]
